@@ -45,6 +45,17 @@ def map_calls(g, pat):
     return [x.bb for x in g.calls(pat) if x.arg_types and "CabiWaitable" in x.arg_types[0]]
 
 
+def is_private(f):
+    """the function is not `pub` (syntax facts; unknown -> False): it cannot be reached from outside the crate."""
+    from lib import synq
+    name = f.npath.split("::")[-1]
+    for x in synq.all_fns(f.file):
+        sp = x.node.get("sp") or []
+        if x.name == name and len(sp) >= 3 and sp[0] <= f.line <= sp[2] and sp[2] == f.d["sp"].get("el"):
+            return x.node.get("vis", "pub") != "pub"
+    return False
+
+
 def one(rep, c, cfg):
     tag = f"[{cfg}]"
 
@@ -140,14 +151,14 @@ def one(rep, c, cfg):
                    c.method("TaskState", "deliver_waitable_event")]
 
         def may_write(f, depth=2):
-            """one of the three functions, a closure of one, or a private helper (never used as a value) that is
-            only ever called from functions that may write."""
+            """one of the three functions, a closure of one, or a private (non-`pub`) helper, never used as a value,
+            that is only ever called from functions that may write."""
             if any(f is a or f.path.startswith(a.path + "::{closure") for a in allowed):
                 return True
             if depth <= 0:
                 return False
             callers, taken = callers_of(c, f)
-            return bool(callers) and not taken and all(may_write(h, depth - 1) for h in callers)
+            return bool(callers) and not taken and is_private(f) and all(may_write(h, depth - 1) for h in callers)
         nsite = {"insert": 0, "remove": 0}
         for f in c.fns.values():
             for call in f.calls(MUT_MAP):
